@@ -206,7 +206,10 @@ theorem pointwise (ev : Event) (hconv : ∀ w ∈ D, ∃ c, convertOne g w = .ok
             obtain ⟨k, hk⟩ := hr2 p hpN hno
             rw [hk] at hf; cases hf
           obtain ⟨it', hit', hname''⟩ := List.mem_map.1 hout
-          have hopv := C.opv w hw p hedge hpN
+          have hopv := C.opv w hw p hedge (by
+            intro hmem
+            obtain ⟨j, hj, hjp⟩ := List.mem_map.1 hmem
+            exact hnotw j hj hjp) hpN
           constructor
           · intro hnil
             have hv' := hopv it' hit' hname''
